@@ -48,6 +48,10 @@ def _always_returns(stmts: list[ast.stmt]) -> bool:
     if isinstance(last, ast.Try):
         return _always_returns(last.body) and all(
             _always_returns(h.body) for h in last.handlers) and not last.finalbody
+    if isinstance(last, ast.Match):
+        return all(_always_returns(c.body) for c in last.cases) and any(
+            isinstance(c.pattern, ast.MatchAs) and c.pattern.pattern is None
+            and c.guard is None for c in last.cases)
     return False
 
 
@@ -127,6 +131,21 @@ def tailify(stmts: list[ast.stmt], make_result) -> list[ast.stmt] | None:
             new = copy.copy(st)
             new.body = nb or [ast.Pass()]
             new.handlers = hs
+            out.append(new)
+            return out
+        if isinstance(st, ast.Match) and _has_return(st):
+            if rest and not _always_returns([st]):
+                return None
+            cases = []
+            for c in st.cases:
+                nb = tailify(c.body, make_result)
+                if nb is None:
+                    return None
+                nc = copy.copy(c)
+                nc.body = nb or [ast.Pass()]
+                cases.append(nc)
+            new = copy.copy(st)
+            new.cases = cases
             out.append(new)
             return out
         if _has_return(st) and not isinstance(
@@ -400,6 +419,44 @@ class Inliner:
                     self.inlined.append(f"{h.fq} into {caller.fq}")
                     return body
                 self.skipped.append(f"{h.fq} into {caller.fq} (shape)")
+        # for x in H(...): BODY  with H a non-reference generator that yields
+        # at exactly one site: H's body with `yield e` replaced by
+        # `x = e; BODY`
+        if isinstance(st, (ast.For, ast.AsyncFor)) and isinstance(
+                st.iter, ast.Call) and not st.orelse and isinstance(
+                    st.target, ast.Name):
+            h = self.candidate(caller, st.iter)
+            if h is not None:
+                ys = [n for n in h.body_nodes()
+                      if isinstance(n, (ast.Yield, ast.YieldFrom))]
+                plain = len(ys) == 1 and isinstance(ys[0], ast.Yield) and \
+                    ys[0].value is not None and isinstance(
+                        parent(ys[0]), ast.Expr)
+                escapes = any(isinstance(n, (ast.Break, ast.Continue))
+                              for b in st.body for n in ast.walk(b))
+                if plain and not escapes:
+                    body = self.inline_body(caller, st.iter, h,
+                                            (lambda e: None), True)
+                    if body is not None:
+                        tgt, loop_body = st.target, st.body
+
+                        class _Y(ast.NodeTransformer):
+
+                            def visit_Expr(self, node):
+                                if isinstance(node.value, ast.Yield):
+                                    return [ast.Assign(
+                                        targets=[copy.deepcopy(tgt)],
+                                        value=node.value.value)] + [
+                                            copy.deepcopy(b) for b in loop_body]
+                                return node
+
+                        out = []
+                        for b in body:
+                            r = _Y().visit(b)
+                            out += r if isinstance(r, list) else [r]
+                        self.inlined.append(
+                            f"{h.fq} into {caller.fq} (generator loop)")
+                        return out
         # hoisting: the first call evaluated in a simple statement
         if isinstance(st, (ast.Expr, ast.Assign, ast.AnnAssign, ast.Return,
                            ast.AugAssign)):
